@@ -300,7 +300,7 @@ def run(ctx):
             else:
                 r.bad("wire|" + m, "SearchWorkerBuilder::%s is not wired to self.%s" % (m, fld), fn=k, construct=m)
 
-    with ctx.rule("C18.PATH", "results are attributed to the original path; the command receives it", floor=3, kind="FLOW") as r:
+    with ctx.rule("C18.PATH", "results are attributed to the original path; the command receives it as data", floor=5, kind="FLOW") as r:
         for name in ("search_preprocessor", "search_decompress"):
             f = facts.fn(SW + "::" + name)
             eb = ExprBuilder(f)
@@ -317,3 +317,20 @@ def run(ctx):
             r.ok("pre|argv", "the preprocessor receives the path as argument and the file on stdin", fn=f)
         else:
             r.bad("pre|argv", "the preprocessor is not given the file path / stdin", fn=f, construct="argv")
+        # the path is data, not an option: handed over as it is only if it cannot start with `-` (Haystack::path strips the
+        # leading "./" of entries found by the walk, so `-k.gz` would otherwise reach gzip as an option)
+        for g_, label in ((facts.fn(SW + "::search_preprocessor"), "pre"), (facts.fn(DRB + "::build"), "zip")):
+            ebg_ = ExprBuilder(g_)
+            raw = [c for c in g_.calls() if c.path.endswith("Command::arg") and
+                   any(x.k == "arg" and x[2] == "path" for x in walk(ebg_.operand(c.args[1]))) and
+                   not mentions_call(ebg_.operand(c.args[1]), "std::path::Path::join")]
+            dash = cond_switches(g_, lambda e: any(x.k == "call" and x[1].endswith("starts_with") for x in walk(e)) and
+                                 any(x.k == "const" and (x[1] == 45 or "'-'" in str(x[2])) for x in walk(e)), ebg_)
+            if raw and dash and not any(c.bb in C.reach(g_, [d_[1][1]]) for c in raw for d_ in dash):
+                r.ok(label + "|dash", "the raw path is an argument only when it does not start with `-` (otherwise ./ is put in front)", fn=g_)
+            elif raw:
+                r.bad(label + "|dash", "%s passes the file's path to the command unguarded: a file whose name starts with `-`, found by "
+                      "an implicit-path search (leading ./ stripped), is parsed as an option and the file is reported as failed"
+                      % g_.path, fn=g_, loc=raw[0].loc, construct="dash-path")
+            else:
+                r.ok(label + "|dash", "the path is never handed over raw", fn=g_, nontrivial=False)
